@@ -142,6 +142,7 @@ type World struct {
 	LastOp     OpInfo
 	SnapTypes  map[string]bool // when set, snapshots only read these types (kv lm ann nj roi img)
 	admin      bool
+	restricted bool // Opts.Types named a subset of the data types
 	Extra      map[string]bool // extra keyvalue instances currently alive
 	nextra     int
 	Panics     []string // recovered-panic responses seen on well-formed requests (C20)
@@ -165,6 +166,7 @@ func New(w *drv.Worker, r *rand.Rand, o Opts) (*World, error) {
 	wd.admin = o.Admin
 	wd.Extra = map[string]bool{}
 	types := o.Types
+	wd.restricted = len(types) > 0
 	if len(types) == 0 {
 		types = []string{"kv", "lm", "ann", "nj", "roi", "img"}
 	}
@@ -313,7 +315,33 @@ func (wd *World) short(u string) string { return wd.H.Short(u) }
 // Step performs one random well-formed operation and settles.  Returns a short description.
 func (wd *World) Step() (string, error) {
 	open := wd.open()
+	// one draw over the enabled kinds: dag 18, kv 9, lm 26, ann 17, nj 12, roi 8, img 10 (a workload restricted to a few
+	// data types spends the share of the others on those types, not on DAG operations)
 	x := wd.R.Intn(100)
+	if wd.restricted {
+		type kw struct {
+			lo, hi int
+			on     bool
+		}
+		ranges := []kw{{0, 18, true}, {18, 27, wd.on("kv")}, {27, 53, wd.on("lm")}, {53, 70, wd.on("ann")}, {70, 82, wd.on("nj")}, {82, 90, wd.on("roi")}, {90, 100, wd.on("img")}}
+		total := 0
+		for _, k := range ranges {
+			if k.on {
+				total += k.hi - k.lo
+			}
+		}
+		y := x * total / 100
+		for _, k := range ranges {
+			if !k.on {
+				continue
+			}
+			if y < k.hi-k.lo {
+				x = k.lo + y
+				break
+			}
+			y -= k.hi - k.lo
+		}
+	}
 	var desc string
 	var err error
 	var u string
@@ -783,6 +811,41 @@ func (wd *World) annStep(u string) (string, error) {
 	}
 	x := wd.R.Intn(100)
 	switch {
+	case x >= 38 && x < 60 && len(poss) >= 3:
+		// re-post 2-4 stored elements with their tags drawn afresh (what a client does when it edits tags): one request
+		// that adds a tag to some elements and drops it from others
+		n := 2 + wd.R.Intn(3)
+		if n > len(poss) {
+			n = len(poss)
+		}
+		var es []map[string]interface{}
+		var edited []elem
+		for _, i := range wd.R.Perm(len(poss))[:n] {
+			e := st.elems[poss[i]]
+			e.Tags = nil
+			for _, t := range annTags {
+				if wd.R.Intn(2) == 0 {
+					e.Tags = append(e.Tags, t)
+				}
+			}
+			edited = append(edited, e)
+			m := map[string]interface{}{"Pos": e.Pos, "Kind": e.Kind, "Prop": map[string]string{"i": fmt.Sprint(wd.Seq)}}
+			if len(e.Tags) > 0 {
+				m["Tags"] = e.Tags
+			}
+			es = append(es, m)
+		}
+		jb, _ := json.Marshal(es)
+		r, err := wd.do("POST", base+"elements", jb, fmt.Sprintf("POST syn/elements retag x%d%s", len(es), at))
+		if err != nil {
+			return "ann retag", err
+		}
+		if r.OK() {
+			for _, e := range edited {
+				st.elems[e.Pos] = e
+			}
+		}
+		return "ann retag", nil
 	case x < 60 || len(poss) < 2: // post 1-3 elements; two of them may reference each other
 		n := 1 + wd.R.Intn(3)
 		var es []map[string]interface{}
